@@ -152,6 +152,21 @@ PROPS = {
                 "fill_holes (superset adding whole components) against the oracle. distinct_nontrivial = distinct op lines with a non-empty MOC.",
         "explanation": "theorems: T/F expanded semantics + canonicity, T/F contracted per range, counterexample for the original formula; space part is oracle testing",
     },
+    "C19": {
+        "needs_bins": True,
+        "trusted_base": COMMON_TB + ["the real `moc` binary is rebuilt from /repo and driven as a process; exit status, stderr and the decoded output file are what is observed",
+            "outputs are compared in the common 64-bit index space (a w-bit index i stands for i << (64-w)), which is the identification the theorem cli_op2_width_independent uses"],
+        "assumptions": COMMON_ASSUME + [
+            "the hints of the two file streams inside the tool are reproduced in-process from the same files (source kind fits-stream); by cli_op2_sem the result does not depend on them as long as they are consistent",
+            "`moc from pos`: the HEALPix hash of a position is computed by cdshealpix in the harness (oracle for the hash only); geometry sub-commands (cone, polygon, ...), filter, view, hprint, info and the ST variants of op are not driven",
+            "clap's parsing of file names that resemble a sub-command (e.g. a relative `a.fits`) is outside the model; the harness passes absolute paths"],
+        "rule": "for each quantity all 9 (left width, right width) pairs x 2 (12 thorough) random operand pairs (empty, full, shallow, deepest depth) x {inter, union, symdiff, minus} with a random output format "
+                "(fits, ascii, json); per (quantity, width) 2 (12) MOCs through complement, degrade to a random depth and all 9 convert pairs {fits, ascii, json} x {fits, ascii, json} (folded / offset text inputs); "
+                "NUNIQ (v1) left operand against a u32 right operand; `from timestamp` / `from timerange` (microseconds, depths 0..61, instants at both ends of the time domain, duplicates, touching ranges) "
+                "and `from pos`; invalid inputs (missing file, S-MOC vs T-MOC, stream inputs, truncated / corrupted / random / text-as-FITS files, out-of-domain / overlapping / reversed / garbage ASCII, garbage "
+                "lines and out-of-range depths for `from`, out-of-range degrade depth): non-zero exit status with a message and never exit 101. distinct_nontrivial = distinct op lines with a non-empty operand.",
+        "explanation": "theorems: stream handed to the writer = set operation on the two inputs for any widths and consistent hints, width independence in the 64-bit index space, complement, degrade, re-exported codec and builder theorems; correspondence on the real binary",
+    },
     "C20": {
         "trusted_base": COMMON_TB + ["IEEE-754: arithmetic on the generated dyadic doubles (small integers times powers of 4) is exact, so the integer model and the f64 code coincide"],
         "assumptions": COMMON_ASSUME + [
